@@ -848,8 +848,55 @@ func (a *Act) goStmt(x *ssa.Go) {
 	if c := x.Call.StaticCallee(); c != nil {
 		name = "go " + relName(c)
 	}
+	// A goroutine started on a closure whose captured variables were all produced inside this
+	// function (results of calls, allocations, cells of locals) can only reach memory handed to it
+	// through them. When the calls that produced them are trusted not to retain the caller's
+	// memory (their contracts are listed as trusted), everything that existed when this function
+	// was entered is out of its reach: only memory allocated since function entry is havocked.
+	if mc, ok := x.Call.Value.(*ssa.MakeClosure); ok && a == a.root() && goCapturesLocalOnly(mc) {
+		a.vc.assumed["goroutine body abstracted (memory allocated since function entry havocked at spawn; the goroutine only captures values produced inside this function and is assumed not to reach memory that existed at function entry; no interleaving semantics): "+name] = true
+		a.havocSince(a.cur, a.root().allocE)
+		return
+	}
 	a.vc.assumed["goroutine body abstracted (all memory havocked at spawn; no interleaving semantics): "+name] = true
 	a.havocAll(a.cur)
+}
+
+// goCapturesLocalOnly: every captured value is a local cell (Alloc) or the result of a call made
+// in the spawning function; parameters, globals and values loaded from pre-existing memory are refused.
+func goCapturesLocalOnly(mc *ssa.MakeClosure) bool {
+	for _, b := range mc.Bindings {
+		switch v := b.(type) {
+		case *ssa.Alloc:
+		case *ssa.Call:
+			_ = v
+		default:
+			return false
+		}
+	}
+	return true
+}
+
+// havocSince havocs every heap component, keeping the rows of objects allocated up to threshold.
+func (a *Act) havocSince(st *State, threshold string) {
+	al := a.alloc(st)
+	na := a.vc.declare("alloc_hv", SortInt)
+	a.vc.assume("true", app("<=", al, na))
+	for _, k := range st.mem.keys() {
+		if k == "alloc" {
+			continue
+		}
+		s := a.vc.comps[k]
+		cur := a.vc.comp(st.mem, k, s)
+		hv := a.vc.declareHeap("hv_"+k, s, na)
+		if strings.HasPrefix(string(s), "(Array Int ") && !strings.HasPrefix(k, "ghost:chan.") {
+			a.vc.lines = append(a.vc.lines, fmt.Sprintf("(assert (forall ((r!f Int)) (! (=> (<= r!f %s) (= (select %s r!f) (select %s r!f))) :pattern ((select %s r!f)) :pattern ((select %s r!f)))))", threshold, hv, cur, hv, cur))
+		}
+		st.mem.m[k] = hv
+	}
+	st.mem.m["alloc"] = na
+	// components not mentioned so far keep their initial version: its rows above the entry
+	// allocation mark are unconstrained, which is the same as havocking them
 }
 
 func (a *Act) runDefer(d deferInfo) {
